@@ -511,7 +511,12 @@ func runProgram(r *vrun.Run, p program, scratch string) {
 	for _, c := range p.Calls {
 		canon += fmt.Sprintf("%s(%q,%q,%q,%v,%d);", c.Op, c.A, c.B, c.Data, c.Flag, c.Ctx)
 	}
-	defer func() { r.Case(canon, nontrivial) }()
+	defer func() {
+		r.Case(canon, nontrivial)
+		if nontrivial && p.Index%97 == 5 && r.WantSample() {
+			r.Sample(map[string]any{"program_index": p.Index, "stream": p.Stream, "initial_tree": p.InitialS, "calls": p.Calls})
+		}
+	}()
 	for i, c := range p.Calls {
 		exp := expect(model, c)
 		preOS, preMem := bo.dump(), bm.dump()
